@@ -16,6 +16,21 @@ use clarabel::solver::{DefaultSettings, SolverStatus};
 pub struct SolveOp {
     pub time_limit: f64,
     pub max_iter: u32,
+    /// edits of public settings fields *after* construction that must not change
+    /// the internal problem (they are only read by the constructor)
+    pub flip_presolve: bool,
+    pub flip_equil: bool,
+}
+
+impl Default for SolveOp {
+    fn default() -> Self {
+        SolveOp {
+            time_limit: f64::INFINITY,
+            max_iter: 60,
+            flip_presolve: false,
+            flip_equil: false,
+        }
+    }
 }
 
 pub struct ExecResult {
@@ -112,6 +127,12 @@ pub fn exec_history_to(
             };
             solver.settings.max_iter = op.max_iter;
         }
+        if op.flip_presolve {
+            solver.settings.presolve_enable = !solver.settings.presolve_enable;
+        }
+        if op.flip_equil {
+            solver.settings.equilibrate_enable = !solver.settings.equilibrate_enable;
+        }
         let r = sv_solve(sid, &mut solver);
         let bad = r.is_err();
         snaps.push(r);
@@ -137,6 +158,7 @@ pub fn gen_ops(tier: Tier) -> Vec<SolveOp> {
         .map(|_| SolveOp {
             time_limit: f64::INFINITY, // filled in later
             max_iter: [60u32, 0, 1, 2, 3, 5, 8, 13][choose("max_iter", 8) as usize],
+            ..Default::default()
         })
         .collect()
 }
@@ -250,7 +272,7 @@ pub fn run(tier: Tier) -> RunOutcome {
     }
     // time limits per solve
     for (k, op) in ops.iter_mut().enumerate() {
-        let mode = choose("limit", 5);
+        let mode = choose("limit", 6);
         op.time_limit = match (mode, limit_ns) {
             (0, Some(ns)) => secs(ns),
             (0, None) => {
@@ -265,6 +287,8 @@ pub fn run(tier: Tier) -> RunOutcome {
             (1, _) => f64::INFINITY,
             (2, _) => 0.0,
             (3, _) => 1e-9 * (1 + choose("tiny", 1000)) as f64,
+            // huge but finite limits are legal settings too
+            (5, _) => [1e20, 1e300, f64::MAX, 1e15][choose("huge", 4) as usize],
             (_, Some(ns)) => secs(ns) * 0.5,
             (_, None) => 1e6,
         };
